@@ -208,19 +208,36 @@ class Witness(threading.Thread):
         self.stop = threading.Event()
         self.calls = 0
         self.problems = []
+        self.idle_timeouts = 0
         self.connected = threading.Event()
 
     def run(self):
+        P = self.fx.P
         try:
             p = self.fx.proxy("svc", serializer=self.sername, timeout=20.0)
             p._pyroBind()
             self.connected.set()
             conn = p._pyroConnection
             n = 0
+            last_reply = time.monotonic()
             while not self.stop.is_set():
                 n += 1
                 tok = "w%d-%d" % (self.wid, n)
-                got = p.echo(tok)
+                t_send = time.monotonic()
+                try:
+                    got = p.echo(tok)
+                except P.errors.CommunicationError as x:
+                    ct = P.config.COMMTIMEOUT
+                    if ct and (t_send - last_reply) > 0.5 * ct:
+                        # this witness itself was idle for a large part of the server's COMMTIMEOUT (descheduled on a loaded machine):
+                        # the server may legitimately have timed the idle connection out. Not a verdict; reconnect and go on.
+                        self.idle_timeouts += 1
+                        p._pyroBind()
+                        conn = p._pyroConnection
+                        last_reply = time.monotonic()
+                        continue
+                    raise
+                last_reply = time.monotonic()
                 if got != tok:
                     self.problems.append("witness %d sent %r, got %r" % (self.wid, tok, got))
                     break
@@ -348,6 +365,7 @@ def run_config(P, cfg, rec, r, n_items):
                 rec.inconc("witness %d did not stop within the watchdog" % w.wid)
                 return
             rec.count("witness_calls_ok", w.calls)
+            rec.count("witness_idle_timeouts_tolerated", w.idle_timeouts)
         # fresh handshake after the attack
         ok = False
         err = None
